@@ -17,7 +17,7 @@ RULE = ('Every element and composite node of every shipped map file that loads (
 ASSUMPTIONS = ['when a value contains a control character only the control-character code (and length codes) are asserted: the implementation deliberately stops there',
                'a missing required composite may be reported with code 1 or 2, a whole not-used composite with 5, 10 or I10 (the property does not pin these)',
                'nodes whose data element is undefined (C16 finding) are skipped; maps that cannot be loaded are skipped']
-REQUIRED_COUNTERS = ['composite:required-component-left-off-the-end', 'exclusion:single-other-set-with-related-name', 'evals:exclusion-through-params', 'element-nodes', 'composite-nodes', 'evals:element', 'evals:composite', 'evals:with-qualifier', 'evals:with-exclusion', 'expected:1', 'expected:10', 'expected:4', 'expected:5',
+REQUIRED_COUNTERS = ['evals:qualified-format', 'evals:qualified-format:node-lists-several', 'composite:required-component-left-off-the-end', 'exclusion:single-other-set-with-related-name', 'evals:exclusion-through-params', 'element-nodes', 'composite-nodes', 'evals:element', 'evals:composite', 'evals:with-qualifier', 'evals:with-exclusion', 'expected:1', 'expected:10', 'expected:4', 'expected:5',
                      'expected:6', 'expected:7', 'expected:8', 'expected:9', 'expected:none']
 MIN_CASES = {'quick': 150000, 'thorough': 2000000}
 WATCHDOG_S = {'quick': 1200, 'thorough': 7200}
@@ -351,6 +351,54 @@ def exclusion_through_params(ctx, DE, CODES, files):
                     break       # one node of the target set is enough per setting
 
 
+def qualified_formats(ctx, DE, CODES, files):
+    """The one place where an element's definition depends on its neighbour: DTP03 has the format that the DTP02 actually given names (among those
+    the node lists).  The real segment_if.is_valid runs on DTP*<qualifier>*<format>*<value>; the findings on DTP03 must be those of that format."""
+    import pyx12.map_if
+    import pyx12.params
+    import pyx12.segment
+    import pyx12.error_handler
+    samples = ['20200101', '20200229', '20200101-20200105', '202001011230', '1230', '123015', '20201301', '20200101-20201301', '202001012460', '2460', '2020010', 'X']
+    for fn in files:
+        if not ctx.mine(('dtp', fn)):
+            continue
+        try:
+            m = pyx12.map_if.load_map_file(fn, pyx12.params.params())
+            r = refmap.load(fn)
+        except Exception:
+            continue
+        done = set()
+        for (re_, me, comp) in pairs(fn, r, m):
+            if re_.kind != 'ele' or re_.data_ele != '1251' or re_.seq != 3 or re_.parent.id != 'DTP' or re_.usage == 'N' or len(re_.parent.children) < 3:
+                continue
+            q_node = re_.parent.children[1]
+            listed = [c for c in (q_node.codes or []) if c in KNOWN_FMT]
+            sig = (tuple(sorted(listed)), re_.usage)
+            if not listed or (ctx.quick and sig in done):
+                continue
+            done.add(sig)
+            quals = re_.parent.children[0].codes or ['472']
+            seg_node = me.parent
+            for q in listed:
+                for v in samples:
+                    seg = pyx12.segment.Segment('DTP*%s*%s*%s' % (quals[0], q, v), '~', '*', ':')
+                    errh = pyx12.error_handler.errh_list()
+                    ctx.count('evals:qualified-format')
+                    if len(listed) > 1:
+                        ctx.count('evals:qualified-format:node-lists-several')
+                    try:
+                        seg_node.is_valid(seg, errh)
+                    except Exception as ex:
+                        ctx.viol('segment:%s' % exc_key(ex), 'segment_if.is_valid raised', {'map': fn, 'node': re_.path(), 'segment': seg.format()}, {'exc': repr(ex)[:200]})
+                        continue
+                    got = sorted(e[0] for e in errh.err_ele if e[0] in ('8', '9'))
+                    ok = ok_type(v, q, 'E', m.icvn or '00401')
+                    if ok != (not got):
+                        ctx.viol('qualified-format:%s' % ('accepted-in-another-format' if ok is False else 'rejected-although-well-formed'),
+                                 'DTP03 is not judged by the format that the DTP02 given names', {'map': fn, 'node': re_.path(), 'listed_formats': listed, 'segment': seg.format()},
+                                 {'date_time_findings': got, 'well_formed_in_given_format': ok})
+
+
 def run(ctx):
     import pyx12.map_if
     import pyx12.params
@@ -358,6 +406,7 @@ def run(ctx):
     CODES = refmap.load_codes()
     files = refmap.map_files()
     exclusion_through_params(ctx, DE, CODES, files)
+    qualified_formats(ctx, DE, CODES, files)
     seen_sig = set()
     seen_nt = set()
     total = 0
